@@ -157,12 +157,26 @@ func (s *Vf37State) OnCancel(ctx context.Context, cc *CallContext) error {
 	return nil
 }
 
+// Vf37Exch is the exchange-only flavour of Vf37State: a dynamic stream method
+// decides producer/exchange from the interfaces its state implements.
+type Vf37Exch struct{ S Vf37State }
+
+func (e *Vf37Exch) Exchange(ctx context.Context, in arrow.RecordBatch, out *OutputCollector, cc *CallContext) error {
+	return e.S.turn("exchange", in, out)
+}
+
+func (e *Vf37Exch) OnCancel(ctx context.Context, cc *CallContext) error {
+	vf37User("cancel#%d", e.S.Pos)
+	return nil
+}
+
 // Vf37Unregistered is a stream state that is NOT gob-registered: packing it
 // into an HTTP state token fails.
 type Vf37Unregistered struct{ Vf37State }
 
 func init() {
 	RegisterStateType(&Vf37State{})
+	RegisterStateType(&Vf37Exch{})
 	// The code under test logs every recovered hook/handler panic through slog;
 	// hundreds of thousands of executions would drown the run log.
 	slog.SetDefault(slog.New(slog.NewTextHandler(io.Discard, nil)))
@@ -182,7 +196,9 @@ type vf37Kind struct {
 	// PVer is the vgi_rpc.protocol_version sent ("" = the server's own).
 	PVer string
 	// In is the client's input sequence for stream calls:
-	// t tick | i int64 x | c32 int32 x (castable) | bad int64 y (not castable) | cancel.
+	// t tick | i int64 x | c32 int32 x (castable) | bad int64 y (not castable) |
+	// str utf8 x (not castable) | ab-ok {a:int32,b:int32} | ab-bad {a:int32,b:utf8}
+	// (column a casts, column b does not) | cancel.
 	In []string
 	// Dispatched says whether the call is "dispatched" in the sense of the C37
 	// statement (registered method, passes the protocol-version gate).
@@ -235,6 +251,8 @@ func vf37Kinds() []vf37Kind {
 		{Name: "exch-noemit", Class: "validate-error", Method: "exch", Stream: 2, X: 10, In: []string{"i"}, Dispatched: true},
 		{Name: "exch-dblemit", Class: "double-emit", Method: "exch", Stream: 2, X: 11, In: []string{"i"}, Dispatched: true},
 		{Name: "exch-emiterr", Class: "handler-error", Method: "exch", Stream: 2, X: 12, In: []string{"i"}, Dispatched: true},
+		{Name: "dyn-castfail", Class: "dyn-cast-fail", Method: "dyn", Stream: 2, X: 8, In: []string{"str"}, Dispatched: true},
+		{Name: "dyn-castok", Class: "ok", Method: "dyn", Stream: 2, X: 6, In: []string{"c32", "c32"}, Dispatched: true},
 		{Name: "unknown", Class: "unknown-method", Method: "nope", X: 5},
 		{Name: "pver-unary", Class: "pver-refusal", Method: "u_ok", X: 5, PVer: "2.0.0"},
 		{Name: "pver-stream", Class: "pver-refusal", Method: "prod", Stream: 1, X: 1, PVer: "2.0.0"},
@@ -276,6 +294,7 @@ type vf37Env struct {
 
 var vf37InSchema = vfI64Schema("x")
 var vf37OutSchema = vfI64Schema("v")
+var vf37In2Schema = vfI64Schema("a", "b")
 
 func vf37NewServer(env *vf37Env) *Server {
 	s := NewServer()
@@ -324,6 +343,17 @@ func vf37NewServer(env *vf37Env) *Server {
 	}
 	Producer(s, "prod", vf37OutSchema, initFn("prod"))
 	Exchange(s, "exch", vf37OutSchema, vf37InSchema, initFn("exch"))
+	// Two-column exchange, and dynamic streams that declare their input schema
+	// at init through StreamResult.InputSchema (one and two columns).
+	Exchange(s, "exch2", vf37OutSchema, vf37In2Schema, initFn("exch2"))
+	dynFn := func(name string, in *arrow.Schema) func(ctx context.Context, cc *CallContext, p VfXParams) (*StreamResult, error) {
+		return func(ctx context.Context, cc *CallContext, p VfXParams) (*StreamResult, error) {
+			vf37User("init:%s(%d)", name, p.X)
+			return &StreamResult{OutputSchema: vf37OutSchema, InputSchema: in, State: &Vf37Exch{S: Vf37State{Script: vf37Scripts[p.X]}}}, nil
+		}
+	}
+	DynamicStreamWithHeader(s, "dyn", VfHeader{}.ArrowSchema(), dynFn("dyn", vf37InSchema))
+	DynamicStreamWithHeader(s, "dyn2", VfHeader{}.ArrowSchema(), dynFn("dyn2", vf37In2Schema))
 	if env.ExtraMethods != nil {
 		env.ExtraMethods(s)
 	}
@@ -515,6 +545,14 @@ func vf37InputBatch(code string, i int) arrow.RecordBatch {
 		return vf37I32Batch("x", int32(i+1))
 	case "bad":
 		return vfI64Batch("y", int64(i+1))
+	case "str":
+		return vfBatchJSON(arrow.NewSchema([]arrow.Field{{Name: "x", Type: arrow.BinaryTypes.String}}, nil), `[{"x":"abc"}]`)
+	case "ab-ok":
+		return vfBatchJSON(arrow.NewSchema([]arrow.Field{{Name: "a", Type: arrow.PrimitiveTypes.Int32}, {Name: "b", Type: arrow.PrimitiveTypes.Int32}}, nil),
+			fmt.Sprintf(`[{"a":%d,"b":2}]`, i+1))
+	case "ab-bad":
+		return vfBatchJSON(arrow.NewSchema([]arrow.Field{{Name: "a", Type: arrow.PrimitiveTypes.Int32}, {Name: "b", Type: arrow.BinaryTypes.String}}, nil),
+			fmt.Sprintf(`[{"a":%d,"b":"abc"}]`, i+1))
 	}
 	panic("vf37InputBatch: " + code)
 }
